@@ -249,13 +249,18 @@ struct SessIdCase {
     back: u16,
     handshakes: u8,
     seed: u32,
+    /// the live session has been marked expired (e.g. it carried a RemoveFabric) but still
+    /// serves an open exchange: it stays in the table and keeps receiving under its id
+    #[serde(default)]
+    expired_but_in_use: bool,
 }
 
 fn sess_id_strategy() -> impl Strategy<Value = SessIdCase> {
-    (0u16..4, 1u8..4, any::<u32>()).prop_map(|(back, handshakes, seed)| SessIdCase {
+    (0u16..4, 1u8..4, any::<u32>(), any::<bool>()).prop_map(|(back, handshakes, seed, expired_but_in_use)| SessIdCase {
         back,
         handshakes,
         seed,
+        expired_but_in_use,
     })
 }
 
@@ -271,9 +276,29 @@ fn check_sess_ids(case: &SessIdCase) -> Case {
     let cis: Vec<_> = (0..n).map(|i| mk_crypto(case.seed.wrapping_add(1000 + i as u32))).collect();
     // a live CASE session on the device with a known local id
     const LIVE: u16 = 0x0123;
-    if let Err(e) = plant_pair(&device, &cd, node_addr(0), &peer, &cp, node_addr(1), SessKind::Case, LIVE, 0x0456, 5) {
-        return Case::inconclusive(format!("plant: {e:?}"));
-    }
+    let planted = match plant_pair(&device, &cd, node_addr(0), &peer, &cp, node_addr(1), SessKind::Case, LIVE, 0x0456, 5) {
+        Ok(p) => p,
+        Err(e) => return Case::inconclusive(format!("plant: {e:?}")),
+    };
+    // an exchange of the device's own keeps the session in use
+    let _held = if case.expired_but_in_use {
+        let held = match Exchange::initiate_for_session(&device, &cd, planted.a_internal) {
+            Ok(e) => e,
+            Err(e) => return Case::inconclusive(format!("initiate on the live session: {:?}", e.code())),
+        };
+        let fab = sessions(&device).iter().find(|s| s.id == planted.a_internal).and_then(|s| match s.mode {
+            SessionMode::Case { fab_idx, .. } => Some(fab_idx),
+            _ => None,
+        });
+        let Some(fab) = fab else { return Case::inconclusive("planted session not found") };
+        device.with_state(|s| s.verif_sessions_mut().remove_for_fabric(fab, Some(planted.a_internal)));
+        if !sessions(&device).iter().any(|s| s.id == planted.a_internal && s.expired) {
+            return Case::inconclusive("could not mark the session expired");
+        }
+        Some(held)
+    } else {
+        None
+    };
     device.with_state(|s| s.verif_sessions_mut().verif_set_next_sess_id(LIVE.wrapping_sub(case.back)));
     let result: RefCell<Option<bool>> = RefCell::new(None);
     let mut verdict = None;
@@ -337,7 +362,7 @@ fn check_sess_ids(case: &SessIdCase) -> Case {
             }
         }
     }
-    verdict.unwrap_or_else(|| Case::pass(established as u16 > case.back).label(format!("established-{established}")))
+    verdict.unwrap_or_else(|| Case::pass(established as u16 > case.back).label(format!("established-{established}")).label(if case.expired_but_in_use { "live-session-expired-but-in-use" } else { "live-session-plain" }))
 }
 
 fn main() {
